@@ -7,10 +7,12 @@
 //! recorded events validated by a TV_* specification).
 use std::io::{self, BufRead, BufWriter, Write};
 
+mod alloc_count;
 mod util;
 mod clock;
 mod conv;
 mod m_ana;
+mod m_res;
 mod m_http;
 mod m_pool;
 mod m_tcp;
@@ -39,6 +41,7 @@ fn main() {
         "http" => m_http::run(&mut input, &mut out, rest),
         "pool" => m_pool::run(&mut input, &mut out, rest),
         "ana" => m_ana::run(&mut input, &mut out, rest),
+        "res" => m_res::run(&mut input, &mut out, rest),
         m => {
             eprintln!("unknown mode {m}");
             std::process::exit(2);
